@@ -124,7 +124,8 @@ func (c *control) readDir() {
 		at     bool
 		params []any
 	)
-	c.pos++ // move past ~
+	expectParam := true // no value yet for the current parameter position
+	c.pos++             // move past ~
 	for c.pos < c.end {
 		b := c.str[c.pos]
 		c.pos++
@@ -143,12 +144,13 @@ func (c *control) readDir() {
 			if colon || at {
 				c.invalidDir(c.str, c.pos-1)
 			}
-			prev := c.str[c.pos-2]
-			if prev == '~' || prev == ',' {
-				params = append(params, nil)
+			if expectParam {
+				params = append(params, nil) // omitted
 			}
+			expectParam = true
 		case '#':
 			params = append(params, len(c.args)-c.argPos)
+			expectParam = false
 		case 'v', 'V':
 			var p any
 			if 0 <= c.argPos {
@@ -156,6 +158,7 @@ func (c *control) readDir() {
 				c.argPos++
 			}
 			params = append(params, p)
+			expectParam = false
 		case '\'':
 			// A quote is followed by exactly one character, any character.
 			r, size := utf8.DecodeRune(c.str[c.pos:c.end])
@@ -164,11 +167,13 @@ func (c *control) readDir() {
 			}
 			c.pos += size
 			params = append(params, slip.Character(r))
+			expectParam = false
 		case '-', '0', '1', '2', '3', '4', '5', '6', '7', '8', '9':
 			c.pos--
 			p := c.readParam()
 			if n, err := strconv.ParseInt(string(p), 10, 64); err == nil {
 				params = append(params, int(n))
+				expectParam = false
 			} else {
 				slip.ErrorPanic(c.scope, 0, "invalid directive at %d of %q. %s", c.pos-1, c.str, err)
 			}
